@@ -255,7 +255,11 @@ pub fn run_c20(ctx: &mut Ctx) {
             let ptrw = if i % 2 == 0 { 8 } else { 4 };
             let id = format!("k{i}_");
             let cfg = Cfg::rich(ptrw, &id);
-            let g = gen_prog::generate(&mut rng, &cfg);
+            let mut g = gen_prog::generate(&mut rng, &cfg);
+            if i % 3 == 2 {
+                // hostile original: if pyxis accepts it, its rewrites must behave all the same
+                crate::hostile::perturb(&mut g.mods, &mut rng);
+            }
             let mut r = R {
                 evals: 1,
                 pairs: vec![],
@@ -453,6 +457,34 @@ pub fn run_c19(ctx: &mut Ctx) {
                 let mut v = g.mods.clone();
                 v.push((ItemPath::from(format!("{mpath}::nested_shadow").as_str()), clone));
                 variants.push(("same-names-nested-under-M", v));
+            }
+            // same short names in an *ancestor* of the observed module (not imported by it)
+            if mpath.contains("::") {
+                let parent = refprog::parent_of(&mpath).to_string();
+                if !g.mods.iter().any(|(p, _)| p.to_string() == parent) {
+                    // names M may reach through its module imports
+                    let mut shadow = Module::new();
+                    for j in &closure {
+                        for d in &g.mods[*j].1.definitions {
+                            if let ItemDefinitionInner::Type(_) = &d.inner {
+                                if !shadow.definitions.iter().any(|x| x.name == d.name) {
+                                    shadow.definitions.push(ItemDefinition::new(
+                                        (Visibility::Public, d.name.as_str()),
+                                        TypeDefinition::new([TypeStatement::field((Visibility::Public, "w"), Type::ident("u8").const_pointer().array(7))]),
+                                    ));
+                                }
+                            }
+                        }
+                        for (n, _) in &g.mods[*j].1.extern_types {
+                            if !shadow.extern_types.iter().any(|x| &x.0 == n) {
+                                shadow.extern_types.push((n.clone(), Attributes(vec![Attribute::size(128), Attribute::align(16)])));
+                            }
+                        }
+                    }
+                    let mut v = g.mods.clone();
+                    v.push((ItemPath::from(parent.as_str()), shadow));
+                    variants.push(("same-names-in-ancestor-of-M", v));
+                }
             }
             // filler to change hash-map capacity
             {
